@@ -454,6 +454,9 @@ func (w *World) newProvider() (*provider.Provider, error) {
 	opts = append(opts, provider.WithGeneratePairwiseSubIDFunc(func(_ context.Context, sub string, c *goidc.Client) string {
 		return "pw:" + c.ID + ":" + sub
 	}), provider.WithSubIdentifierTypes(goidc.SubIdentifierPublic, goidc.SubIdentifierPairwise))
+	if extraProviderOpts != nil {
+		opts = append(opts, extraProviderOpts(w)...)
+	}
 	p, err := provider.New(goidc.Profile(spec.Profile), issuer, func(context.Context) (goidc.JSONWebKeySet, error) { return w.srvKeys, nil }, opts...)
 	if err != nil {
 		return nil, err
@@ -474,6 +477,11 @@ func (w *World) provider() *provider.Provider {
 	return w.prov
 }
 
+// hooks for suites that need provider options or outbound answers the generic world does not know
+// (set by the suite around NewWorld / Exec; nil otherwise)
+var extraProviderOpts func(w *World) []provider.ProviderOption
+var extraRoundTrip func(w *World, r *http.Request) *http.Response
+
 // outbound HTTP: CIBA notifications are captured, nothing touches the network
 type rt struct{ w *World }
 
@@ -484,6 +492,11 @@ func (t rt) RoundTrip(r *http.Request) (*http.Response, error) {
 		body, _ = io.ReadAll(r.Body)
 	}
 	w.outbound = append(w.outbound, r.Method+" "+r.URL.String())
+	if extraRoundTrip != nil {
+		if resp := extraRoundTrip(w, r); resp != nil {
+			return resp, nil
+		}
+	}
 	if strings.HasSuffix(r.URL.Path, "/notify") {
 		var m map[string]any
 		_ = json.Unmarshal(body, &m)
@@ -538,7 +551,13 @@ func (w *World) serve(method, target string, form url.Values, hdr http.Header) (
 		if r := recover(); r != nil {
 			panicked = r
 		}
+		if serveHook != nil {
+			serveHook(w, method, target, form, hdr, rec)
+		}
 	}()
 	w.provider().Handler().ServeHTTP(rec, req)
 	return rec, nil
 }
+
+// serveHook, when set, sees every raw request/response pair served by a World (suite c09 scans them)
+var serveHook func(w *World, method, target string, form url.Values, hdr http.Header, rec *httptest.ResponseRecorder)
